@@ -245,6 +245,23 @@ def serde_corr(env: Env, out: Outcome, n: int, stability_sig: str | None = None)
                 out.violations.append(Violation("C12/pending_invocation_count_changed",
                                                 f"{lost} queued/in-progress invocation(s) disappeared across to_serialized -> from_serialized",
                                                 {"state": ops[-3][:6000], "cfg": ops[-4][:2000]}))
+            if stability_sig is not None and lost == 0:
+                # every QUEUED invocation keeps its retry count and its recovery budget (in-progress ones: known finding F-inprogress-reset)
+                def _ent(nm: str, a: Any) -> tuple:
+                    return (nm, enc.ev(a.event), a.attempts or 0, tuple(sorted((a.recovery_counts or {}).items())))
+                after = [_ent(nm, a) for nm, w in cur.workers.items() for a in w.queue]
+                missing = []
+                for nm, w in st.workers.items():
+                    for a in w.queue:
+                        e = _ent(nm, a)
+                        if e in after:
+                            after.remove(e)
+                        else:
+                            missing.append(e)
+                if missing:
+                    out.violations.append(Violation("C12/queued_invocation_budget_changed",
+                                                    f"queued invocations whose retry count / recovery budget changed across the round trip: {missing[:3]}",
+                                                    {"state": ops[-3][:6000], "cfg": ops[-4][:2000]}))
             if stability_sig is not None and rts[0] != rts[1]:
                 # the property's own clause, on the implementation alone: one round trip must be a fixed point
                 i = 0
